@@ -30,9 +30,51 @@ func newGrp[E algebra.PrimeGroupElement[E, S], S algebra.PrimeFieldElement[S]](n
 	return &grp[E, S]{name: name, g: g, sf: sf, q: new(big.Int).Set(sf.Order().Big())}
 }
 
+// sc maps an integer to a scalar through the library's own reduction: non-negative values are
+// handed over unreduced (any width), negative ones as their residue.
 func (c *grp[E, S]) sc(x *big.Int) S {
-	b := new(big.Int).Mod(x, c.q).FillBytes(make([]byte, (c.q.BitLen()+7)/8))
-	return must1(c.sf.FromBytesBEReduce(b))
+	n := (c.q.BitLen() + 7) / 8
+	if x.Sign() < 0 {
+		x = new(big.Int).Mod(x, c.q)
+	}
+	if l := (x.BitLen() + 7) / 8; l > n {
+		n = l
+	}
+	return must1(c.sf.FromBytesBEReduce(x.FillBytes(make([]byte, n))))
+}
+
+// wide: magnitudes around and beyond the group order and its width.
+func (c *grp[E, S]) wide(r *vh.Rng) *big.Int {
+	bl := uint(c.q.BitLen())
+	p2 := func(k uint) *big.Int { return new(big.Int).Lsh(bi(1), k) }
+	add := func(a *big.Int, d int64) *big.Int { return new(big.Int).Add(a, bi(d)) }
+	rnd := func(bits int) *big.Int { x := r.BigBits(bits); return x.SetBit(x, bits-1, 1) }
+	switch r.Intn(12) {
+	case 0:
+		return new(big.Int).Set(c.q)
+	case 1:
+		return add(c.q, 1)
+	case 2:
+		return add(c.q, int64(2+r.Intn(100)))
+	case 3:
+		return p2(bl)
+	case 4:
+		return add(p2(bl), int64(r.Intn(9))-4)
+	case 5:
+		return p2(8 * ((bl + 7) / 8)) // one more than the largest value of the byte width
+	case 6:
+		return new(big.Int).Add(new(big.Int).Mul(c.q, bi(int64(2+r.Intn(5)))), bi(int64(r.Intn(9))))
+	case 7:
+		return p2(2 * bl)
+	case 8:
+		return new(big.Int).Mul(c.q, c.q)
+	case 9:
+		return rnd(int(bl) * 3 / 2)
+	case 10:
+		return rnd(int(bl) * 3)
+	default:
+		return add(p2(8*((bl+7)/8)), -1) // all ones
+	}
 }
 
 func (c *grp[E, S]) z(s S) *big.Int { return new(big.Int).SetBytes(s.BytesBE()) }
@@ -42,6 +84,25 @@ func (c *grp[E, S]) lin(a, b *big.Int, G, H E) E {
 	return G.ScalarOp(c.sc(a)).Op(H.ScalarOp(c.sc(b)))
 }
 
+// numericScalar: signed integers for the generic double-and-add helpers — small ones and
+// magnitudes around and beyond the group order.
+func (c *grp[E, S]) numericScalar(r *vh.Rng) *big.Int {
+	if r.Chance(3, 4) {
+		return big.NewInt(int64(r.Intn(201)) - 100)
+	}
+	k := c.wide(r)
+	if k.BitLen() > 2*c.q.BitLen() { // cost: one Op per bit
+		k.Rsh(k, uint(k.BitLen()-c.q.BitLen()*3/2))
+	}
+	if r.Chance(1, 3) {
+		k = new(big.Int).Sub(c.q, bi(1))
+	}
+	if r.Bool() {
+		k.Neg(k)
+	}
+	return k
+}
+
 func (c *grp[E, S]) boundary() []*big.Int {
 	return []*big.Int{big.NewInt(0), big.NewInt(1), new(big.Int).Sub(c.q, big.NewInt(1)), big.NewInt(2), new(big.Int).Rsh(c.q, 1)}
 }
@@ -49,6 +110,9 @@ func (c *grp[E, S]) boundary() []*big.Int {
 func (c *grp[E, S]) randScalar(r *vh.Rng) *big.Int {
 	if r.Chance(1, 4) {
 		return vh.Pick(r, c.boundary())
+	}
+	if r.Chance(1, 5) {
+		return c.wide(r)
 	}
 	if r.Chance(1, 8) {
 		return big.NewInt(int64(r.Intn(1000)))
@@ -83,6 +147,36 @@ func progText(ops []hop) string {
 		p[i] = o.text()
 	}
 	return strings.Join(p, ";")
+}
+
+// evalOps recomputes with math/big the message and witness every register must hold: sums,
+// negations, products by the scalar (mod q; over the integers when q is nil).
+func evalOps(ops []hop, q *big.Int) (ms, rs []*big.Int) {
+	red := func(x *big.Int) *big.Int {
+		if q != nil {
+			x.Mod(x, q)
+		}
+		return x
+	}
+	for _, o := range ops {
+		var m, r *big.Int
+		switch o.kind {
+		case 'N':
+			m, r = new(big.Int).Set(o.a), new(big.Int).Set(o.b)
+		case 'O':
+			m, r = new(big.Int).Add(ms[o.i], ms[o.j]), new(big.Int).Add(rs[o.i], rs[o.j])
+		case 'V':
+			m, r = new(big.Int).Neg(ms[o.i]), new(big.Int).Neg(rs[o.i])
+		case 'S':
+			m, r = new(big.Int).Mul(ms[o.i], o.a), new(big.Int).Mul(rs[o.i], o.a)
+		case 'R':
+			m, r = new(big.Int).Set(ms[o.i]), new(big.Int).Add(rs[o.i], o.a)
+		case 'T':
+			m, r = new(big.Int).Add(ms[o.i], o.a), new(big.Int).Set(rs[o.i])
+		}
+		ms, rs = append(ms, red(m)), append(rs, red(r))
+	}
+	return ms, rs
 }
 
 // nextOp chooses the next operation kind given the number of registers.
@@ -206,11 +300,11 @@ func pedProgram[K commitments.HomomorphicCommitmentKey[K, *pedersencom.Message[S
 				var e1, e2, e3 error
 				if rng.Chance(1, 3) {
 					// the generic double-and-add helpers of pkg/commitments over Op / OpInv
-					kk := int64(rng.Intn(201)) - 100
-					s = new(big.Int).Mod(big.NewInt(kk), cx.q)
-					m, e1 = commitments.MessageScalarOpSignedNumeric(key, a.m, zInt(big.NewInt(kk)))
-					w, e2 = commitments.WitnessScalarOpSignedNumeric(key, a.w, zInt(big.NewInt(kk)))
-					c, e3 = commitments.CommitmentScalarOpSignedNumeric(key, a.c, zInt(big.NewInt(kk)))
+					kk := cx.numericScalar(rng)
+					s = new(big.Int).Mod(kk, cx.q)
+					m, e1 = commitments.MessageScalarOpSignedNumeric(key, a.m, zInt(kk))
+					w, e2 = commitments.WitnessScalarOpSignedNumeric(key, a.w, zInt(kk))
+					c, e3 = commitments.CommitmentScalarOpSignedNumeric(key, a.c, zInt(kk))
 				} else {
 					m, e1 = key.MessageScalarOp(a.m, cx.sc(s))
 					w, e2 = key.WitnessScalarOp(a.w, cx.sc(s))
@@ -320,10 +414,15 @@ func pedersenCase[E algebra.PrimeGroupElement[E, S], S algebra.PrimeFieldElement
 		r.prop(id, "pedersen-op-refused", "a homomorphic operation on well-formed values failed: "+fail, cse, "pedersen_homomorphic")
 		return
 	}
-	// property on the implementation alone: every tracked opening opens, under the public key too
+	// property on the implementation alone: every tracked opening opens, under the public key too,
+	// and holds the combined message and witness (math/big recomputation)
 	implOpen := make([]string, len(regs))
+	ems, ers := evalOps(ops, cx.q)
 	for k, g := range regs {
 		g := g
+		if cx.z(g.m.Value()).Cmp(ems[k]) != 0 || cx.z(g.w.Value()).Cmp(ers[k]) != 0 {
+			r.prop(fmt.Sprintf("%s.v%d", id, k), "pedersen-combined-value", fmt.Sprintf("register %d (after %s): message/witness (%s, %s) are not the combined ones (%s, %s)", k, ops[k].text(), zh(cx.z(g.m.Value())), zh(cx.z(g.w.Value())), zh(ems[k]), zh(ers[k])), cse, "pedersen_homomorphic")
+		}
 		implOpen[k] = verdict(func() error { return pub.Open(g.c, g.m, g.w) })
 		if implOpen[k] != "1" {
 			r.prop(fmt.Sprintf("%s.r%d", id, k), "pedersen-homomorphic-open", fmt.Sprintf("register %d (after %s) does not open to the combined message and witness: %s", k, ops[k].text(), implOpen[k]), cse, "pedersen_homomorphic / pedersen_rerandomise / pedersen_shift")
@@ -341,10 +440,11 @@ func pedersenCase[E algebra.PrimeGroupElement[E, S], S algebra.PrimeFieldElement
 		}
 		for k, g := range regs {
 			var d []string
-			if cx.z(g.m.Value()).Cmp(mr[k].m) != 0 {
+			modq := func(x *big.Int) *big.Int { return new(big.Int).Mod(x, cx.q) }
+			if cx.z(g.m.Value()).Cmp(modq(mr[k].m)) != 0 {
 				d = append(d, fmt.Sprintf("message %s model %s", zh(cx.z(g.m.Value())), zh(mr[k].m)))
 			}
-			if cx.z(g.w.Value()).Cmp(mr[k].r) != 0 {
+			if cx.z(g.w.Value()).Cmp(modq(mr[k].r)) != 0 {
 				d = append(d, fmt.Sprintf("witness %s model %s", zh(cx.z(g.w.Value())), zh(mr[k].r)))
 			}
 			if !g.c.Value().Equal(cx.lin(mr[k].c0, mr[k].c1, G, H)) {
@@ -443,6 +543,7 @@ func pedersenCase[E algebra.PrimeGroupElement[E, S], S algebra.PrimeFieldElement
 			if strings.HasPrefix(v.name, "com") && !changedCom {
 				continue // e.g. −c = c for the identity
 			}
+			v.m, v.w = new(big.Int).Mod(v.m, cx.q), new(big.Int).Mod(v.w, cx.q)
 			if strings.HasPrefix(v.name, "msg") && v.m.Cmp(m) == 0 || strings.HasPrefix(v.name, "wit") && v.w.Cmp(w) == 0 {
 				continue
 			}
@@ -512,7 +613,7 @@ func pedersenEquivocate[E algebra.PrimeGroupElement[E, S], S algebra.PrimeFieldE
 	if i%2 == 0 {
 		tk, err = pedersencom.SampleTrapdoorKey(cx.g, rng)
 	} else {
-		l := cx.randScalar(rng)
+		l := new(big.Int).Mod(cx.randScalar(rng), cx.q)
 		if l.Cmp(bi(1)) <= 0 {
 			l = bi(2)
 		}
@@ -558,7 +659,7 @@ func pedersenEquivocate[E algebra.PrimeGroupElement[E, S], S algebra.PrimeFieldE
 	if c2, err := pub.CommitWithWitness(msg, wit); err != nil || !c2.Equal(com) {
 		r.prop(id, "pedersen-trapdoor-commit-differs", "TrapdoorKey.CommitWithWitness ≠ exported key's CommitWithWitness", cse, "trapdoor_commit_is_public_commit")
 	}
-	if m.Cmp(m2) != 0 && verdict(func() error { return pub.Open(com, msg2, wit) }) == "1" {
+	if new(big.Int).Mod(new(big.Int).Sub(m, m2), cx.q).Sign() != 0 && verdict(func() error { return pub.Open(com, msg2, wit) }) == "1" {
 		r.prop(id, "pedersen-open-accepts-msg", "the original witness opens the commitment to a different message", cse, "pedersen_open_iff")
 	}
 	r.ask(fmt.Sprintf("PE %s %s 1,0 %s %s %s %s", id, zh(cx.q), zh(lambda), zh(m), zh(w), zh(m2)), func(out string) {
